@@ -74,7 +74,19 @@ func facts(r aa.Rule) []string {
 	case *aa.ChangeProfile:
 		add(fmt.Sprintf("%s|%s|%s|%s", q(r.Qualifier), r.ExecMode, r.Exec, r.ProfileName), []string{"cp"})
 	case *aa.Signal:
-		acc := r.Access
+		acc := []string{}
+		for _, a := range r.Access { // apparmor.d(5): r/read = receive, w/write = send, rw = both
+			switch a {
+			case "r", "read":
+				acc = append(acc, "receive")
+			case "w", "write":
+				acc = append(acc, "send")
+			case "rw":
+				acc = append(acc, "send", "receive")
+			default:
+				acc = append(acc, a)
+			}
+		}
 		if len(acc) == 0 {
 			acc = []string{"send", "receive"} // all the permissions a signal rule has
 		}
